@@ -12,7 +12,7 @@ SHARDS = {"quick": 16, "thorough": 16}
 TIMEOUT = {"quick": 1200, "thorough": 7200}
 RULE = (
     "configurations: n_thetas 3-32 (all triples enumerated), 1-8 plates of sizes 1-12 (always a size-1 plate or a single "
-    "plate somewhere in the run), variances log-uniform in [1e-3,1e3], means N(0,1)x{0.1,1,10,100} incl. plates on which all samples agree next to plates on which they disagree strongly, occasional plates of 20-48 experiments, symmetric non-negative "
+    "plate somewhere in the run), variances log-uniform in [1e-3,1e3], means N(0,1)x{0.1,1,10,100} incl. plates on which all samples agree next to plates on which they disagree strongly, occasional plates of 20-48 experiments and plates of production size (96 / 160 / 384 experiments) whose variances all lie in one regime (1e-3 .. 1e3), symmetric non-negative "
     "distance matrices with 0-40% zero entries (and all-zero), max_chunk in {1,2,3,50}; each plate's score from the "
     "homoscedastic, heteroscedastic, vectorized and GaussianDBALScorer entry points is compared with a scalar fsum "
     "reference at 1e-9(1+|ref|) and under metamorphic changes (alone vs together, shuffled experiments, shuffled plates, "
@@ -20,7 +20,7 @@ RULE = (
     "non-trivial = >=2 plates of unequal sizes or >=4 thetas"
 )
 ASSUMPTIONS = ["means bounded by a few hundred so squares stay finite", "scalar reference uses math.fsum and a stable log-sum-exp"]
-REQUIRED = {"plate_scores_vs_reference": {"quick": 10000, "thorough": 200000}, "metamorphic_checks": {"quick": 10000, "thorough": 200000}, "scorer_entry_runs": {"quick": 800, "thorough": 15000}, "all_zero_distance_cases": {"quick": 10, "thorough": 200}}
+REQUIRED = {"production_size_plates": {"quick": 40, "thorough": 800}, "plate_scores_vs_reference": {"quick": 10000, "thorough": 200000}, "metamorphic_checks": {"quick": 10000, "thorough": 200000}, "scorer_entry_runs": {"quick": 800, "thorough": 15000}, "all_zero_distance_cases": {"quick": 10, "thorough": 200}}
 N_CFG = {"quick": 960, "thorough": 16000}
 TOL = 1e-9
 
@@ -43,6 +43,12 @@ def gen_config(rng):
         sizes[int(rng.integers(P))] = 1
     if rng.random() < 0.15:
         sizes[int(rng.integers(P))] = int(rng.integers(20, 49))  # one large plate next to small ones
+    big = None
+    if rng.random() < 0.08:
+        # a plate of production size (96 / 384 wells) whose variances all lie in one regime
+        T = int(rng.integers(3, 7))
+        big = int(rng.integers(P))
+        sizes[big] = int(rng.choice([96, 160, 384]))
     mscale = float(rng.choice([0.1, 1.0, 10.0, 100.0]))
     means = [rng.normal(size=(T, e)) * mscale for e in sizes]
     if rng.random() < 0.3:
@@ -52,6 +58,11 @@ def gen_config(rng):
         means[p0] = np.tile(rng.normal(size=(1, sizes[p0])), (T, 1)) + rng.normal(size=(T, sizes[p0])) * float(rng.choice([0.0, 1e-6, 1e-2]))
     hetero = [np.exp(rng.uniform(np.log(1e-3), np.log(1e3), size=(T, e))) for e in sizes]
     homo = np.exp(rng.uniform(np.log(1e-3), np.log(1e3), size=(P, T)))
+    if big is not None:
+        centre = float(rng.choice([1e-3, 0.05, 1.0, 30.0, 1e3]))
+        hetero[big] = centre * np.exp(rng.normal(size=(T, sizes[big])) * 0.2)
+        homo[big] = centre * np.exp(rng.normal(size=T) * 0.2)
+        means[big] = means[big] * float(rng.choice([1.0, np.sqrt(centre)]))  # disagreement on the scale of the noise
     d = np.abs(rng.normal(size=(T, T))) * float(rng.choice([1e-3, 1.0, 50.0]))
     d = d + d.T
     zero_frac = float(rng.choice([0.0, 0.1, 0.4, 1.0], p=[0.4, 0.3, 0.25, 0.05]))
@@ -102,6 +113,8 @@ def run_shard(rec, tier, seed, shard, nshards):
             rec.count("integer_typed_inputs")
         total = comb(T, 3)
         budget = total + int(rng.integers(0, 3))
+        if max(sizes) >= 96:
+            rec.count("production_size_plates")
         nontriv = (P >= 2 and len(set(sizes)) > 1) or T >= 4
         w = {"n_thetas": T, "plate_sizes": sizes, "zero_distance_entries": int((d == 0).sum() - T), "budget": budget}
         if not d.any():
